@@ -24,7 +24,7 @@ TIMEOUT = {"quick": 600, "thorough": 3000}
 def cases(tier, seed):
     n = 20 if tier == "quick" else 300
     cs = workload.reader_population(n, seed + 1000, ndims=(3,), max_levels=3, max_fields=4,
-                                    payloads=("random", "special"))
+                                    payloads=("random", "special", "nearconst"))
     for i, c in enumerate(cs):
         c["sel_seed"] = seed * 67 + i
         c["gen"]["base_blocks"] = (1, 2) if c["gen"]["bf"] >= 4 else (2, 4)
@@ -126,5 +126,10 @@ def run_case(case, work, rec):
                         rec.ok(key, L >= 1 and max(nfl) >= 2 and nonid)
     for k, v in contracts.COUNTS.items():
         rec.count("calls:" + k, v - n0.get(k, 0))
-    for f in contracts.FAILS[:3]:
-        rec.violation(f"contract on {f['contract']} broken at the source: {f['detail']}", witness=f)
+    # contracts hang on internal functions: a failure is a verdict only when the case also failed
+    # behaviourally (then it localises the defect); alone it is reported as an observation
+    if contracts.FAILS:
+        rec.count("contract_failures", len(contracts.FAILS))
+        if rec.violations:
+            for f in contracts.FAILS[:3]:
+                rec.violation(f"(diagnostic) contract on {f['contract']} broken at the source: {f['detail']}", witness=f)
